@@ -30,7 +30,8 @@ def run(ctx: Ctx):
     ctx.mc("MC_ZoneTimeline", MC_CFG.format(T=5 if q else 6, maxtr=2 if q else 3), workers="auto", tag="walk", timeout=3000)
     ids = zone_ids()
     full = set(rnd.sample(ids, 12 if q else len(ids)))
-    fixed = [f"fixed:{s}" for s in ([0, 3600, -3600, 64800, -64800, 19800, 1, -1] + [rnd.randint(-64800, 64800) for _ in range(40 if q else 2000)])]
+    fixed = [f"fixed:{s}" for s in ([0, 3600, -3600, 64800, -64800, 19800, 1, -1] + list(range(-64800, 64801, 1800))
+                                      + [rnd.randint(-64800, 64800) for _ in range(40 if q else 2000)])]
     tasks = [(z, "full" if z in full else "windows", ctx.seed) for z in ids] + [(z, "full", ctx.seed) for z in fixed]
     rnd.shuffle(tasks)
     res = parallel_map(zonewalk.walk_zone, tasks)
